@@ -96,6 +96,18 @@ theorem C10_writer_refines_canon (bits : Nat) (hb : 2 ≤ bits) (cbs : List (Nat
       (∀ cb ∈ cbs, (Spec.kindOf (symsOf cb.2)).toNat ≤ sigS.toNat) :=
   writer_refines_canon bits hb cbs hv
 
+/-- **FST sources are canonical too** (C06 for the FST loader): what `SignalWriter` keeps for a bit-vector signal has no two
+consecutive changes with the same value, every value in its smallest sufficient kind under a common maximum, and every stored
+entry decodes (loader layout) to exactly that kind and those symbols -/
+theorem C10_writer_canonical (bits : Nat) (hb : 2 ≤ bits) (cbs : List (Nat × List Nat))
+    (hv : ∀ cb ∈ cbs, ∃ nums, charsToNums cb.2 = some nums ∧ nums.length = bits) :
+    ∃ (sigS : States) (chg : List (Nat × List Nat)), runWriter (.bitvec bits) (cbs.map fun c => (c.1, WValue.chars c.2)) =
+        some { maxStates := sigS, times := chg.map (·.1), entries := chg.map (fun x => valueEntry sigS bits x.2) } ∧
+      Spec.noAdjRepeat (chg.map fun x => (x.1, Spec.Value.bits x.2)) := by
+  obtain ⟨sigS, chg, h1, h2, _⟩ := C10_writer_refines_canon bits hb cbs hv
+  exact ⟨sigS, chg, h1, by rw [h2]; exact Spec.canon_noAdjRepeat _⟩
+
+
 /-- … and the same for string and real signals: the writer keeps exactly `canon` of the callback sequence, values stored
 verbatim (strings: the bytes delivered; reals: the 8 bytes) -/
 theorem C10_writer_strings_reals (cbs : List (Nat × List Nat)) :
